@@ -404,9 +404,14 @@ func convertHeadersToParameters(headers []*http.Header) []*v3.Parameter {
 
 		// Add example if specified
 		if header.GetExample() != "" {
-			schema.Example = &yaml.Node{
-				Kind:  yaml.ScalarNode,
-				Value: header.GetExample(),
+			if schema.Type[0] == headerTypeString {
+				// keep "no", "on", "123" strings in every rendering
+				schema.Example = stringNode(header.GetExample())
+			} else {
+				schema.Example = &yaml.Node{
+					Kind:  yaml.ScalarNode,
+					Value: header.GetExample(),
+				}
 			}
 		}
 
